@@ -302,6 +302,14 @@ var fragSizes = []int{0, 1, 2, 3, 4, 5, 7, 16}
 
 // Read implements net.Conn.
 func (c *TCPConn) Read(b []byte) (int, error) {
+	n, err := c.read(b)
+	if err != nil {
+		simrt.Mark()
+	}
+	return n, err
+}
+
+func (c *TCPConn) read(b []byte) (int, error) {
 	p := c.rd
 	for {
 		simrt.Yield(siteRead)
@@ -422,6 +430,14 @@ func (p *Pipe) deliverLocked(upto int, d time.Duration, end bool) {
 
 // Write implements net.Conn.
 func (c *TCPConn) Write(b []byte) (int, error) {
+	n, err := c.write(b)
+	if err != nil {
+		simrt.Mark()
+	}
+	return n, err
+}
+
+func (c *TCPConn) write(b []byte) (int, error) {
 	p := c.wr
 	total := 0
 	first := true
@@ -537,6 +553,32 @@ func (c *TCPConn) Close() error {
 	return nil
 }
 
+// CloseWrite half-closes the connection: the peer reads end of stream after the data
+// written so far, the reading direction stays open.
+func (c *TCPConn) CloseWrite() error {
+	simrt.Yield(siteClose)
+	c.mu.Lock()
+	closed := c.closed
+	c.mu.Unlock()
+	if closed {
+		return opErr("close", c, ErrClosed)
+	}
+	simrt.Event("conn#%d half-closed by %s", c.ID, map[bool]string{true: "client", false: "server"}[c.IsClient])
+	d := c.drawDelay()
+	c.wr.mu.Lock()
+	if !c.wr.ended {
+		c.wr.ended = true
+		c.wr.endRST = false
+		c.wr.endOff = len(c.wr.hist)
+		c.wr.EndTime = simrt.Elapsed()
+		c.wr.EndStep = simrt.Step()
+		c.wr.deliverLocked(c.wr.endOff, d, true)
+	}
+	c.wr.broadcastLocked()
+	c.wr.mu.Unlock()
+	return nil
+}
+
 // Reset tears the connection down as a network fault: both directions end
 // with RST immediately, pending undelivered data is lost.
 func (pr *ConnPair) Reset() {
@@ -639,6 +681,12 @@ func Listen(network, address string) (Listener, error) {
 
 // Accept implements net.Listener.
 func (l *TCPListener) Accept() (stdnet.Conn, error) {
+	c, err := l.accept()
+	simrt.Mark()
+	return c, err
+}
+
+func (l *TCPListener) accept() (stdnet.Conn, error) {
 	for {
 		simrt.Yield(siteAccept)
 		l.mu.Lock()
@@ -720,6 +768,12 @@ var dialDelays = []time.Duration{0, 0, 100 * time.Microsecond, 5 * time.Millisec
 
 // DialTimeout connects to a simulated listener.
 func DialTimeout(network, address string, d time.Duration) (Conn, error) {
+	c, err := dialTimeout(network, address, d)
+	simrt.Mark()
+	return c, err
+}
+
+func dialTimeout(network, address string, d time.Duration) (Conn, error) {
 	if strings.HasPrefix(network, "udp") {
 		return dialUDP(address)
 	}
